@@ -30,10 +30,24 @@ def normalise_loop(body):
     return " ".join(body.split())
 
 
+def prefix_lens(a, d):
+    """content lengths of the lines (and of the unterminated rest) of the first d bytes of an analysed input"""
+    out, left = [], d
+    for n in a["line_lens"]:
+        if left >= n + 1:
+            out.append(n)
+            left -= n + 1
+        else:
+            break
+    if left > 0:
+        out.append(left)
+    return out
+
+
 class C10(PropBase):
     pid = "C10"
     coq_dirs = ["Base", "Gen", "C08", "C11", "C09", "C10"]
-    translators = ["symfile_loop.py"]
+    translators = ["symfile_loop.py", "c10_stream.py"]
     bins = ["c10"]
     impl_timeout = 600
     rule = ("case = input bytes (run-length encoded) + reader schedule (sizes of successive read() results); exhaustive: every single "
@@ -162,6 +176,77 @@ class C10(PropBase):
                 lines += G.gen_lines(rng, rng.below(3))[1:]
             data = G.join(rng, lines, final_nl=not rng.chance(1, 4))
             add("long>=80K", data, G.sched_random(rng, len(data), style=rng.choice([1, 2, 3, 5])))
+        # 5. parse_async over bodies with EMPTY chunks and bodies that FAIL (third section of the case: the body script).
+        #    An empty chunk is not the end of the body; a failed body must never give a table (F-C10c).
+        def add_s(kind, data, sched, script, tag=None):
+            cases.append(G.case(data, sched, tag) + " | " + " ".join(script))
+            dist[kind] = dist.get(kind, 0) + 1
+
+        def with_empties(toks, p):
+            out = []
+            for t in toks:
+                while rng.chance(p, 100):
+                    out.append("0")
+                out.append(t)
+            while rng.chance(p, 100):
+                out.append("0")
+            return out
+
+        nsmall = 6 if quick else 40
+        for fno in range(nsmall):
+            pbad = [0, 0, 5][rng.below(3)]
+            lines = G.gen_lines(rng, 2 + rng.below(5 if quick else 12), pbad=pbad)
+            data = G.join(rng, lines, eol_mode=fno % 3, final_nl=(fno % 4 != 3))
+            if len(data) > (400 if quick else 1500):
+                data = data[:(400 if quick else 1500)]
+            n = len(data)
+            add_s("stream-empty-first", data, [], ["0", "0"])
+            add_s("stream-fail-first", data, [], ["E"])
+            add_s("stream-fail-last", data, [], [str(n), "E"])
+            add_s("stream-empty-last", data, [], [str(n), "0", "0"])
+            for k in range(1, n):
+                add_s("stream-empty@k", data, [str(k)], [str(k), "0"])            # an empty chunk after every prefix
+                add_s("stream-fail@k", data, [str(k)], [str(k), "E"])             # a failure after every prefix
+            for _ in range(20 if quick else 120):
+                k = 1 + rng.below(max(1, n - 1))
+                add_s("stream-empty-fail", data, [str(k)], [str(k), "0*%d" % (1 + rng.below(3)), "E"])
+                toks = with_empties(G.sched_random(rng, n, style=rng.choice([4, 4, 6])), 30)
+                add_s("stream-empties", data, [], toks)
+                cut = rng.below(len(toks) + 1)
+                add_s("stream-empties-fail", data, [], toks[:cut] + ["E"])
+            add_s("stream-trickle-empties", data, [], with_empties(["1"] * n, 25))
+        # long lines (< 80 KiB) around the growth thresholds: empty chunks / a failure while the buffer is full or growing
+        for i in range(120 if quick else 1500):
+            lines = G.gen_lines(rng, rng.below(3))
+            for _ in range(1 + rng.below(4)):
+                t = rng.choice([G.around(rng, rng.choice([5120, 10240, 20480, 40960, 81920]), 6),
+                                rng.range(1, 81919), rng.range(60000, 81919), 81919, rng.below(3000)])
+                lines.append(G.long_line(rng, min(81919, max(0, t))))
+                if rng.chance(1, 2):
+                    lines += G.gen_lines(rng, rng.below(3))[1:]
+            data = G.join(rng, lines, eol_mode=rng.choice([0, 0, 1]), final_nl=not rng.chance(1, 5))
+            toks = with_empties(G.sched_random(rng, len(data), style=rng.choice([1, 2, 3, 5, 6])), 20)
+            exp = []
+            for t in toks:                       # expand n*k so that a failure can be put between two chunks
+                if "*" in t:
+                    a, b = t.split("*")
+                    exp += [a] * min(int(b), 400)
+                else:
+                    exp.append(t)
+            toks = with_empties(exp, 10) if len(exp) <= 400 else toks
+            if i % 2 == 0:
+                add_s("stream-long-empties", data, [], toks)
+            else:
+                cut = rng.below(min(len(toks), 60) + 1)
+                add_s("stream-long-fail", data, [], toks[:cut] + ["E"])
+        # outside the class: only the callback half and "a failed body gives no table" apply
+        for i in range(20 if quick else 200):
+            lines = G.gen_lines(rng, rng.below(3))
+            lines.append(G.long_line(rng, G.around(rng, rng.choice([81920, 100000, 163839, 163840, 200000]), 50)))
+            lines += G.gen_lines(rng, rng.below(3))[1:]
+            data = G.join(rng, lines, final_nl=not rng.chance(1, 4))
+            toks = with_empties(G.sched_random(rng, len(data), style=rng.choice([2, 3, 5])), 20)
+            add_s("stream-long>=80K", data, [], toks if i % 2 else toks[:rng.below(len(toks) + 1)] + ["E"])
         self._dist = dist
         return cases, dist, True
 
@@ -199,7 +284,25 @@ class C10(PropBase):
         if a["tag"] == "bad" and f["R"] == "OK":
             return "a numeric field of this input is malformed or out of range for the Breakpad format, yet streamed parsing succeeds"
         # the same clauses for SymbolFile::parse_async fed with the schedule as HTTP chunks
-        if "A" in f:
+        if "A" in f and f.get("aerr") == "1":
+            # the body failed after `ad` bytes: never a table; the callback saw a prefix of what was delivered; with lines
+            # < 80 KiB the outcome is the error of the first rejected complete line among the delivered bytes, else the load error
+            if f.get("acbok") != "1":
+                return "parse_async (failing body): the bytes passed to the callback, concatenated, are not a prefix of the input"
+            acb, ad = int(f["acb"].split(",")[0]), int(f["ad"])
+            if f["A"] == "OK":
+                return "the response body failed after %d of %d bytes, yet parse_async returned a symbol table" % (ad, a["total"])
+            if acb > ad:
+                return "parse_async (failing body): the callback received %d bytes but the body delivered only %d" % (acb, ad)
+            if not f["A"].startswith("E") or f["A"].startswith("E9"):
+                return "parse_async (failing body) returned neither a table nor an error: " + f["A"][:100]
+            lens_d = prefix_lens(a, ad)
+            if all(n < G.HALF for n in lens_d):
+                want = f["aw"] if f["aw"].startswith(("E1:", "E2:")) else "E8:0"
+                if f["A"] != want:
+                    return ("the body failed after %d bytes, all delivered lines are shorter than 80 KiB and whole-buffer parsing of the "
+                            "delivered bytes gives %s, yet parse_async gives %s (expected %s)" % (ad, f["aw"], f["A"], want))
+        elif "A" in f:
             if f.get("acbok") != "1":
                 return "parse_async: the bytes passed to the callback, concatenated, are not a prefix of the input"
             acb = int(f["acb"].split(",")[0])
